@@ -31,6 +31,7 @@ func runC09(c *Ctx) {
 	c.Rule("C09.R5", "EFF", "only order-preserving operations on the result", 1)
 	c.Rule("C09.R6", "EFF", "in-place operations act on a fresh slice", 2)
 	c.Rule("C09.R7", "WIRE", "every exception is applied (complete scan of a complete exception list)", 2)
+	checkKeywordTables(c, "C09.R8")
 
 	a := &anchors{c: c, rule: "C09.R1"}
 	dr := a.method("", "DNSResult", "DNSRewrites")
